@@ -120,6 +120,30 @@ pub fn decode_table() -> Vec<DecodeCase> {
             );
         }
     }
+    // auipc
+    for &rd in &REGS {
+        for imm in [0, 1, 0x7ffff, 0xfffff] {
+            add(
+                format!("auipc {}, {}", rn(rd), imm),
+                vec![Inst::Auipc(rd, imm)],
+                "auipc",
+            );
+        }
+    }
+    // sgez rd, rs (RARS): rd = rs >= 0
+    for &rd in &REGS {
+        for &a in &REGS {
+            add(
+                format!("sgez {}, {}", rn(rd), rn(a)),
+                vec![Inst::R(ROp::Slt, rd, a, 0), Inst::I(IOp::Xori, rd, rd, 1)],
+                "pseudo-sgez",
+            );
+        }
+    }
+    // spellings the manual does not have: accepting one gives it a meaning of the parser's own
+    for text in ["auipc t0, t1, 0", "lui t0, t1, 0", "sgez t0, L", "seqz t0, L", "jalr t0, L", "jal t0, t1, L"] {
+        add(text.to_string(), vec![], "not-in-the-manual");
+    }
     // loads and stores
     let lops = [LOp::Lb, LOp::Lbu, LOp::Lh, LOp::Lhu, LOp::Lw];
     let sops = [SOp::Sb, SOp::Sh, SOp::Sw];
@@ -380,6 +404,18 @@ impl C08 {
                 return;
             }
         };
+        if dc.form == "not-in-the-manual" {
+            if errs.is_empty() {
+                acc.violation(
+                    format!("C08|accepted-form-the-manual-does-not-have|{mnemonic}"),
+                    case,
+                    witness("the parser accepts this spelling and gives it a meaning", json!(nodes.iter().skip(1).map(|n| n.to_string()).collect::<Vec<_>>())),
+                );
+            } else {
+                acc.outcome(&format!("rejected-as-it-should-be:{mnemonic}"), case);
+            }
+            return;
+        }
         if !errs.is_empty() {
             // The property speaks of accepted forms; a rejected manual form is
             // informational only.
